@@ -21,7 +21,13 @@
 #include "verif.h"
 #include "post_common.h"
 
-enum { S_CAST1, S_CAST2, S_PAREN, S_CASTPAREN, S_COMPOUND, S_CASTCOMPOUND };
+/* shapes (preprocessor constants: used in #if) */
+#define S_CAST1 0
+#define S_CAST2 1
+#define S_PAREN 2
+#define S_CASTPAREN 3
+#define S_COMPOUND 4
+#define S_CASTCOMPOUND 5
 
 struct scope filescope;
 static struct scope g_blockscope;
@@ -190,6 +196,10 @@ harness(void)
 	__CPROVER_assume(CLT == T_FN);
 #endif
 	g_no_error = wf;
+#if defined(VERIF_CANARY) && defined(CHECK_CLFUNC)
+	/* every input of this unit must be diagnosed: the canary sits before the call */
+	__CPROVER_assert(!(in_t1 == T_LONG || in_t1 == T_FN), "CANARY");
+#endif
 
 	r = castexpr(s);
 
